@@ -158,9 +158,14 @@ inductive Op where
   | renameName
   | concatAlong (k n : Nat)
   | concatNew (k n : Nat)
+  /-- `expand_dims(other k)`: a new dimension of length 1, first (`axis=0`) or last (`axis=-1`) -/
+  | expandDims (k : Nat) (last : Bool)
   /-- `copy(deep)`; `fresh` = the new grid got its own backing store (observed) -/
   | copy (deep fresh : Bool)
-  /-- uxarray's `isel(n_node=… | n_edge=… | n_face=…)`: `Grid.isel` built a grid with counts `c` -/
+  /-- uxarray's `isel(n_node=… | n_edge=… | n_face=…)` and the `subset.*` accessors: `Grid.isel` built a
+      grid with counts `c`.  Indexing is BY NAME: the array's one grid dimension, WHEREVER it sits, gets
+      the sub-grid's count; order and all other dimensions are untouched (so it commutes with
+      transposition). -/
   | gridIsel (c : Counts)
   | integrate
   | gradient
@@ -184,6 +189,7 @@ def Op.kind : Op → Option XKind
   | .renameName => some .rename
   | .concatAlong _ _ => some .concat
   | .concatNew _ _ => some .concat
+  | .expandDims _ _ => some .concat
   | _ => none
 
 /-- is it one of the xarray operations (for which "what plain xarray computes" is defined) -/
@@ -206,6 +212,9 @@ def xdims (op : Op) (ds : Dims) : Option Dims :=
   | .renameName => some ds
   | .concatAlong k n => if hasDim ds (.other k) then some (setLen ds (.other k) n) else none
   | .concatNew k n => if hasDim ds (.other k) then none else some ((.other k, n) :: ds)
+  | .expandDims k last =>
+      if hasDim ds (.other k) then none
+      else some (if last then ds ++ [(.other k, 1)] else (.other k, 1) :: ds)
   | .copy _ _ => some ds
   | _ => none
 
@@ -346,6 +355,13 @@ def deepCopyB (s s' : State) : Bool :=
       | none => false
   | _, _ => false
 
+/-- grid-`isel` is by name: same dimension names in the same order, only the array's grid dimension
+    changes its length, to the sub-grid's count -/
+def gridIselShapeB (s : State) (c : Counts) (s' : State) : Bool :=
+  match centred s.arr.dims with
+  | some d => s'.arr.dims == setLen s.arr.dims d (c.get d)
+  | none => false
+
 /-- names of the clauses that fail for the step `s --op--> s'`; `xd` = dims of the same operation
     on a plain `xarray.DataArray` (only read for xarray operations). -/
 def failing (s : State) (op : Op) (s' : State) (xd : Dims) : List String :=
@@ -358,6 +374,8 @@ def failing (s : State) (op : Op) (s' : State) (xd : Dims) : List String :=
   (match op with
    | .copy true _ => if s'.arr.grid.isNone || deepCopyB s s' then [] else ["deep_copy_equal_independent"]
    | .remap g2 _ => if s'.arr.grid.isNone || s'.arr.grid == some g2 then [] else ["remap_destination_grid"]
+   | .gridIsel c =>
+       if s'.arr.grid.isNone || gridIselShapeB s c s' then [] else ["grid_isel_by_name"]
    | _ => []) ++
   (if op.isX then (if s'.arr.dims == xd then [] else ["shape_as_xarray"]) else [])
 
